@@ -60,9 +60,9 @@ def descs(tier):
         for edges in simple_graphs(n):
             for acyclic in (False, True):
                 for prim in (False, True):
-                    forms = ["vars"] if n == nmax and tier != "quick" else ["vars", "neg", "xor2", "const", "cmp", "ncmp", "tied"]
+                    forms = ["vars"] if n == nmax and tier != "quick" else ["vars", "neg", "xor2", "const", "cmp", "ncmp", "tied", "trues", "falses"]
                     if tier == "quick" and n == nmax:
-                        forms = ["vars", "neg", "cmp", "tied"]
+                        forms = ["vars", "neg", "cmp", "tied", "trues"]
                     for form in forms:
                         yield dict(func="active_vertices_connected", n=n, edges=[list(e) for e in edges],
                                    acyclic=acyclic, prim=prim, form=form)
@@ -77,6 +77,8 @@ def descs(tier):
         for acyclic in (False, True):
             for prim in (False, True):
                 yield dict(func="active_vertices_connected", grid=[h, w], acyclic=acyclic, prim=prim, form="vars")
+                if h * w >= 4 and not prim:
+                    yield dict(func="active_vertices_connected", grid=[h, w], acyclic=acyclic, prim=prim, form="trues")
 
 
 def bounded(tier, seed, rep):
